@@ -35,7 +35,40 @@ CHECKS = {
     note=PPNOTE, technique=PPTECH + '; relational (2-run) query over path conditions', design='4/C18'),
 }
 
+GNOTE = ('Engine G: every production body of sv-parser-parser is executed from rustc MIR with its sub-parsers replaced by contracts (assume/guarantee over productions; nom 7 complete-parser contracts '
+         'for the primitives incl. Error vs Failure; nom_locate: line = L(offset); #[packrat_parser] transparent, #[recursive_parser] fails on re-entry); loops unrolled twice, repetitions of effect-free '
+         'productions taken as one inductive step; per-production path/time caps (truncated productions listed in the evidence).')
+GTECH = 'modular verification conditions on the MIR of each grammar production (own symbolic executor + z3), whole-grammar fixpoints for scope effects / hard failures / non-nullability; native probes for confirmation'
+WNOTE = 'MIR of nightly rustc; callees of the wrappers replaced by recording stubs returning symbolic results; std models as listed in the evidence.'
+
+CHECKS.update({
+ 'C01': dict(category='model_checking', text='V1, one inductive verification condition per production (all ~1300 bodies incl. the symbol/keyword terminals, white_space, the imperative lexers with concat/into_locate): assuming each callee returns a node tiling the span it consumed, the node built tiles [p_in,p_out) with non-empty adjacent leaves in field order and line = L(offset); strict entries end at the end of the text. Unbounded in input length (inductive), conditional on the nom / nom_locate contracts. Iteration order and get_str are decided by C16.',
+             note=GNOTE, technique=GTECH, design='4/C01'),
+ 'C05': dict(category='model_checking', text='IEEE 22.5.1 define/usage programs (formals with/without defaults, omitted/empty actuals, the three error cases by name, actuals with nested brackets/strings/commas, `` `" `\\`" continuation lines, // in bodies, nesting in bodies and arguments, redefinition between uses, caller-supplied macros) on the real preprocess_str + resolve_text_macro_usage + split_text MIR with define table and strip_comments symbolic, token-wise against a text-level reference expander.',
+             note=PPNOTE, technique=PPTECH, design='4/C05'),
+ 'C06': dict(category='model_checking', text='Directive-free texts (every lexical piece kind alone, at end of input, and in adjacent pairs with 6 separators; CR/LF/CRLF; non-ASCII) through the real preprocess_str MIR with ignore_include and the define table symbolic: Ok, identical text, origin(i)=(path,i) for every byte; the three admissible lexical faults give Preprocess(path, offset<=fault). Fixed point: every successful path of the other program families is re-run on its own output inside the same symbolic execution.',
+             note=PPNOTE, technique=PPTECH, design='4/C06'),
+ 'C07': dict(category='model_checking', text='One inductive step instead of call histories: for an arbitrary prior state of the three parser thread-locals (stack depths 0..3, top selector any of 9, memo empty/non-empty, all symbolic) the real init() MIR re-establishes the initial state and touches exactly these three; each of the five public parser entries, run from every such state with the grammar function stubbed, calls it on the initial state with its own input and returns its result; the static/thread_local items of all crates are enumerated from the sources (none outside the parser crate) and #[recursive_parser] functions counted against nom_recursive\'s 128 limit.',
+             note=WNOTE + ' LocalKey::with / RefCell / Vec::clear / PackratStorage::clear modelled as single-thread cells.', technique='MIR symbolic execution of init() and the entry points over a symbolic thread-local pre-state (z3 chooses depths/contents); source scan for global state', design='4/C07'),
+ 'C12': dict(category='model_checking', text='V2 scope pairing for every production body: on every exit path (normal, each `?`, early return) the directive stack and the keyword-version stack are as on entry, except version_specifier/keywords_directive (+1 version on success) and endkeywords_directive (-1); plus the trivia alphabet: the character classes of the primitives white_space is built from cover blank, tab, form feed, newline. A leak is confirmed on the real parser by scope depths after parsing probe texts.',
+             note=GNOTE, technique=GTECH, design='4/C12'),
+ 'C13': dict(category='model_checking', text='is_keyword / begin_keywords / end_keywords / current_version from MIR with the version stack (depth 0..3, top any of 9 selectors) and the word (index into the universe of all reserved words + probes) symbolic: is_keyword(w) <=> w in the reference set of the selector in force (IEEE 1800-2017 22.14, oracle/keywords/*.txt; 1800-2017 when the stack is empty); every specifier pushes its selector, unknown ones push nothing; the identifier lexers (Engine G, is_keyword symbolic) have no successful path under is_keyword and none that skips the lookup.',
+             note=WNOTE + ' ' + GNOTE, technique='MIR symbolic execution of the keyword lookup over a symbolic word/stack + Engine G on the identifier lexers', design='4/C13'),
+ 'C14': dict(category='model_checking', text='Mechanisms: strict entries end at the end of the text and the delimiter helpers succeed only after opener, inner, closer (Engine G); parse_sv_pp/parse_lib_pp map a parser failure at symbolic position p to Error::Parse(origin(p)) and preprocess_str maps a preprocessor-grammar failure at p to Preprocess((path being read, p)) (wrapper MIR, failure kind and position symbolic); concrete lexical faults in the top file and behind an include report an offset not after the fault.',
+             note=WNOTE + ' ' + GNOTE, technique='wrapper MIR with symbolic failure position + Engine G facts + concolic fault texts', design='4/C14'),
+ 'C15': dict(category='model_checking', text='Mode switch: parse_X_pp selects the incomplete parser iff allow_incomplete and nothing else differs; never fails: no path of source_text_incomplete / library_text_incomplete returns Err, with `description`/`library_description` proved non-nullable and free of hard failures by the whole-grammar fixpoints; agreement: the incomplete bodies perform the same calls before the repetition and build the node from the same pieces as the strict ones.',
+             note=WNOTE + ' ' + GNOTE, technique=GTECH + '; wrapper MIR with allow_incomplete symbolic', design='4/C15'),
+ 'C16': dict(category='model_checking', text='For every node type of the syntax tree (all 1243 RefNode variants) a bounded tree value is generated from the type tables; the presence of every top-level Option, the length (0..2) of every top-level Vec and the variant of a top-level enum are chosen by the solver (<=1 deviation from the fullest shape at once, 2 in thorough). The real iterators and conversions (derive Node::next / IntoIterator, From<&(T0..T10)>, Vec/Option/Box/Paren/List impls, Iter, EventIter, RefNode::next/into_iter, TryFrom<&T> for Locate, SyntaxTree::get_str/get_str_trim) run from MIR and are compared with an independent walk by declared field order: pre-order, balanced nested events, Enter sequence = plain iteration, first-to-last(-non-whitespace) token bounds.',
+             note='MIR of nightly rustc; Vec/Option/Box models; reference walk lib/treegen.py.', technique='MIR symbolic execution of the traversal code on solver-chosen tree shapes of every node type', design='4/C16'),
+ 'C20': dict(category='model_checking', text='Each public wrapper (parse_sv, parse_sv_str, parse_lib, parse_lib_str, parse_sv_pp, parse_lib_pp, preprocess -> preprocess_inner) is executed from MIR with recording stubs for its callees; ignore_include, allow_incomplete, strip_comments, the preprocessor/parser outcome and the error position are symbolic and the file content ranges over a family incl. BOM, CRLF, empty, non-UTF-8, missing. Obligations by callee PARAMETER NAME: same path/defines/include paths, strip_comments=false for the parse family, flags in the right slots, depths 0, file content handed over unchanged, results passed through. Counterexamples are confirmed by a native differential run of all entry points on a probe corpus.',
+             note=WNOTE, technique='MIR symbolic execution of the wrappers with recording stubs (argument flow by parameter name); native differential replay', design='4/C20'),
+})
+
 NA = {
+ 'C02': 'the statement quantifies over all sentences of a reference Annex A grammar and over the node kinds of the resulting trees: that needs whole-parse symbolic execution of the 1300-production nom grammar and an independent Annex A generator as oracle, out of reach of the encoders here; the lexical slice of it (keyword boundary, identifier lexers) is decided under C13 and the bounded lexical engine, ordering of non-terminal alternatives is not (see DESIGN.md 4/C02)',
+ 'C08': 'check not built yet in this session; panic obligations met by the other harnesses are reported under those properties',
+ 'C17': 'deciding it means comparing whole parses under two memo configurations; no modular contract captures "independent of eviction" (memoised functions also depend on the keyword-version stack) and whole-parse symbolic execution is out of reach; comparing concrete parses under two capacities would be testing, not solver-based checking (DESIGN.md 4/C17)',
+ 'C19': 'a consequence of the storage class (thread_local!): there is no interleaving semantics in this code to encode and Kani does not model threads; the enumeration of global state is reported under C07 (DESIGN.md 4/C19)',
 }
 
 ALL = ['C%02d' % i for i in range(1, 21)]
@@ -72,6 +105,8 @@ def main():
             'add_only': True,
         },
         'engines': [
+            {'name': 'gengine', 'path': 'lib/gengine.py', 'serves_properties': ['C01', 'C12', 'C13', 'C14', 'C15'],
+             'kind_free_text': 'grammar engine: modular verification conditions executed on the MIR of each production body, sub-parsers replaced by contracts, nom primitives by their nom 7 contracts; fixpoints over the whole grammar'},
             {'name': 'mirsym', 'path': 'mirsym/', 'serves_properties': sorted(CHECKS),
              'kind_free_text': 'symbolic executor for rustc MIR dumps (python + z3): real functions of sv-parser-pp / sv-parser / sv-parser-syntaxtree / sv-parser-parser executed on symbolic inputs; forks explored by re-execution; panic obligations'},
             {'name': 'svreplay', 'path': 'svreplay/', 'serves_properties': sorted(CHECKS),
